@@ -1,8 +1,7 @@
 package main
 
-type Grammar struct{}
 
-func dumpMore(p *Prog, m *Models, args []string) int { return 2 }
+
 
 func runSelfTests(verifDir, root, prop string) map[string]any { return nil }
 
